@@ -242,7 +242,7 @@ func runCheck(o checkOpts) int {
 	}
 
 	// bounded drivers: replay / fall-back / thorough differential
-	needDriver := o.tier == "thorough" || len(undecided) > 0
+	needDriver := o.tier == "thorough" || len(undecided) > 0 || quickTierDriver(o)
 	for _, n := range names {
 		if agg[n].verdict != "discharged" && isKnown(n) == nil {
 			needDriver = true
@@ -565,4 +565,22 @@ var replayDrivers = map[string]func(e *Engine, o checkOpts, ob *Obligation) *Rep
 func dischargeSeeded(obls []*Obligation, dir string, timeoutS, workers, seed int) {
 	solverSeed = seed % 1000000
 	discharge(obls, dir, timeoutS, workers)
+}
+
+
+// quickTierDriver: a bounded driver whose header says "quick-tier: yes" (fast,
+// deterministic, no I/O) also runs in the quick tier.  It stays a labelled
+// bounded check; it never turns an undischarged obligation into a pass.
+func quickTierDriver(o checkOpts) bool {
+	ents, err := os.ReadDir(filepath.Join(o.verif, "drivers", o.prop))
+	if err != nil {
+		return false
+	}
+	for _, ent := range ents {
+		b, err := os.ReadFile(filepath.Join(o.verif, "drivers", o.prop, ent.Name()))
+		if err == nil && strings.Contains(string(b), "quick-tier: yes") {
+			return true
+		}
+	}
+	return false
 }
